@@ -35,6 +35,9 @@ func init() {
 			{ID: "C01.R13", Text: "a backend is only ever handed Checkpoint.Save's dump: every invocation of Metadata.Save is that call or a wrapping backend forwarding its own parameters (no helper re-packs documents under keys of its own)", Run: whoMaySave},
 			{ID: "C01.R14", Text: "a checkpoint document belongs to one (group, vBucket): its key is a function of the group name and the vBucket id of the call, never a cached value (same rule as C14.R4)", Run: c14r4},
 			{ID: "C01.R15", Text: "a restart answered with a rollback still re-delivers everything above the checkpoint: the catch-up filter skips ⇔ need ∧ seq ≤ F and nothing else (same rule as C08.R5)", Run: c08r5},
+			{ID: "C01.R16", Text: "the store the checkpoint reaches is the one that was configured: no layer that is not a proven pass-through sits in front of a collaborator (same rules as C20.R19 and C20.R20)", Run: func(c *Ctx, id string) { decoratorsTransparent()(c, id); noNewLayers(c, id) }},
+			{ID: "C01.R17", Text: "an absorbed event never overtakes a document that is still on its way to the consumer: every handler hands its event on synchronously, in the order the server sent them (same rule as C03.R1)", Run: c03r1},
+			{ID: "C01.R18", Text: "an event the listener never looked at cannot be settled, yet later acknowledgements carry the checkpoint past it: every path through the listener reaches the dispatch on the event type, and a document is forwarded under no predicate of the listener (same rule as C03.R2)", Run: c03r2},
 			{ID: "C01.R7", Text: "no store through a pointer to a field of models.Offset / models.SnapshotMarker outside the composite literal that allocates it", Run: immutableOffsets},
 		},
 	})
@@ -614,6 +617,11 @@ func c01r6(c *Ctx, id string) {
 	c.need(doc != nil, id, "models.CheckpointDocument")
 	for _, fn := range impls {
 		c.see(fn)
+		if w.isExactPassThrough(fn, "Metadata") {
+			// a layer that hands the call on untouched is not a backend: the transparency rule (C20.R19) judges it
+			c.OKTrivial(id, "layer@"+fname(fn), fn.Pos(), "an exact pass-through to the wrapped store, not a backend")
+			continue
+		}
 		// marshal calls reachable synchronously (incl. closures returned by helpers)
 		fns := []*ssa.Function{}
 		for f := range w.syncCallees(fn, 3, true) {
